@@ -78,7 +78,15 @@ def _affine(calc, mid):
     raise ValueError('unknown calculator %s' % type(calc).__name__)
 
 
-def extract(p, which, shared):
+class FixedMasker:
+    """stand-in masker of a layer that is not NAS-able (excluded / unconverted) and is costed with its static sizes
+    (full_cost=True): all ones, never trainable"""
+
+    def __init__(self, torch, cout):
+        self.alpha = torch.ones(cout)
+
+
+def extract(p, which, shared, full=False):
     """the architecture as the cost evaluator sees it: (maskers, layers, param_map)
     maskers: [(alpha tensor, frozen)], layers: dicts, param_map: id(param tensor) -> list of pid-prefix tuples"""
     from plinio.methods.pit.nn import PITConv1d, PITConv2d, PITLinear
@@ -92,10 +100,23 @@ def extract(p, which, shared):
         return mids[id(fm)]
     layers = []
     target = p._unique_leaf_modules if shared else p._leaf_modules
+    import torch, torch.nn as nn
     for lname, node, layer in target:
+        osh = list(node.meta['tensor_meta'].shape)
+        if full and type(layer) in (nn.Conv1d, nn.Conv2d, nn.Linear):
+            lin = type(layer) is nn.Linear
+            cin, cout = (layer.in_features, layer.out_features) if lin else (layer.in_channels, layer.out_channels)
+            fmk = FixedMasker(torch, cout)
+            L = {'name': lname, 'mask': mid(fmk), 'in': (Fraction(cin), []), 'time': None, 'layer': layer, 'bias': layer.bias is not None, 'fixed': True}
+            if lin:
+                L.update(kind='lin', dw=False, kk=[1], osp=[])
+            else:
+                # the static kernel size goes into the constant factor kc (kind c2 -> kc = prod(kk)); time stays None
+                L.update(kind='c2' if type(layer) is nn.Conv2d else 'c1fixed', dw=layer.groups == cin and layer.groups == cout, kk=list(layer.kernel_size), osp=osh[2:])
+            layers.append(L)
+            continue
         if not isinstance(layer, (PITConv1d, PITConv2d, PITLinear)):
             continue
-        osh = list(node.meta['tensor_meta'].shape)
         L = {'name': lname, 'mask': mid(layer.out_features_masker), 'in': _affine(layer.input_features_calculator, mid), 'time': None, 'layer': layer}
         bias = layer.bias is not None
         if isinstance(layer, PITLinear):
@@ -114,7 +135,7 @@ def coq_net(maskers, layers, which, vals):
     """Coq literal of `net std` / `net g8`; vals: id(param) -> list of float values"""
     from plinio.methods.pit.nn.features_masker import PITFrozenFeaturesMasker
     fr = lambda t: coq([Fraction(v) for v in vals(t)])
-    ms = '[' + '; '.join('Build_masker %s %s' % (fr(m.alpha), coq(isinstance(m, PITFrozenFeaturesMasker))) for m in maskers) + ']'
+    ms = '[' + '; '.join('Build_masker %s %s' % (fr(m.alpha), coq(isinstance(m, (PITFrozenFeaturesMasker, FixedMasker)))) for m in maskers) + ']'
     ls = []
     for L in layers:
         if which == 'gap8_latency':
@@ -161,35 +182,47 @@ def _rand_vals(rng, n, style):
     return [rng.choice(DY) for _ in range(n)]
 
 
-def pit_case(torch, seed, style):
-    """-> JSON-able observation dict of one network (exceptions are observations)"""
+def pit_case(torch, seed, style, full=False):
+    """-> JSON-able observation dict of one network (exceptions are observations).
+    full: full_cost=True with 1-2 cost-bearing layers excluded by name (costed with their static sizes), one
+    single-specification wrapper per metric, metrics read in seeded orders"""
     import torch.nn as nn
     from plinio.methods import PIT
     rng = random.Random(seed)
     dim = rng.choice([1, 1, 2])
     spec = ga.gen(rng, dim=dim, conv_head=True, k1d=list(range(1, 13)))
-    o = {'seed': seed, 'style': style, 'arch': ga.describe(spec), 'dim': dim, 'skip': None, 'fails': [], 'specs': {}, 'productions': spec.get('productions', [])}
+    o = {'seed': seed, 'style': style, 'full': full, 'arch': ga.describe(spec), 'dim': dim, 'skip': None, 'fails': [], 'specs': {}, 'productions': spec.get('productions', [])}
     o['topo'] = 'dw-after-cat' if ga.has_dw_after_cat(spec) else ('add-of-cat' if ga.has_add_of_cat(spec) else None)
     stage = 'build'
     try:
         specs = _specs(dim)
         names = list(specs)
         single = names[seed % len(names)]
+        kw = {}
+        if full:
+            cand = ga.searchable(spec)
+            ex = sorted(rng.sample(cand, min(len(cand), rng.choice([1, 1, 2]))))
+            kw = {'full_cost': True, 'exclude_names': [ga.name(i) for i in ex]}
+            o['excluded'] = kw['exclude_names']
+        rng.shuffle(names)                      # the metrics of the dictionary are read in a seeded order
+        o['order'] = list(names)
         m = ga.build(spec, seed=seed)
         xs = ga.example_input(spec, torch, seed)
         stage = 'wrap'
-        p = PIT(m, input_shape=tuple(spec['input_shape']), cost=dict(specs))
-        ps = PIT(ga.build(spec, seed=seed), input_shape=tuple(spec['input_shape']), cost=specs[single])     # single specification
+        p = PIT(m, input_shape=tuple(spec['input_shape']), cost=dict(specs), **kw)
+        # single specifications: one metric (all metrics in the full_cost stream)
+        singles = {w: PIT(ga.build(spec, seed=seed), input_shape=tuple(spec['input_shape']), cost=specs[w], **kw) for w in (names if full else [single])}
         nas = [(n, q) for n, q in p.named_nas_parameters()]
         train = [(n, q) for n, q in nas if q.requires_grad]
         o['n_nas'] = sum(q.numel() for _, q in train)
         vals0 = {n: _rand_vals(rng, q.numel(), style) for n, q in train}
-        nas_s = dict(ps.named_nas_parameters())
+        nas_s = [dict(w.named_nas_parameters()) for w in singles.values()]
 
         def setall(vv):
             for n, q in train:
                 _set(torch, q, vv[n])
-                _set(torch, nas_s[n], vv[n])
+                for d in nas_s:
+                    _set(torch, d[n], vv[n])
         setall(vals0)
         o['params'] = vals0
         stage = 'forward'
@@ -203,10 +236,10 @@ def pit_case(torch, seed, style):
             S['value'] = float(c)
             if not math.isfinite(S['value']) or S['value'] < 0:
                 o['fails'].append(('cost-not-finite-or-negative:' + which, S['value']))
-            if which == single:
-                cs = float(ps.cost)
+            if which in singles:
+                cs = float(singles[which].cost)
                 if cs != S['value']:
-                    o['fails'].append(('single-vs-dict-specification-differ:' + which, [cs, S['value']]))
+                    o['fails'].append(('single-vs-dict-specification-differ:' + which, {'single': cs, 'dict': S['value'], 'order': o['order'], 'excluded': o.get('excluded')}))
             stage = 'grad:' + which
             g = torch.autograd.grad(c, [q for _, q in train], allow_unused=True, retain_graph=True) if (train and c.requires_grad) else [None] * len(train)
             gw = torch.autograd.grad(c, [q for _, q in netw], allow_unused=True, retain_graph=True) if c.requires_grad else [None] * len(netw)
@@ -289,14 +322,21 @@ def pit_case(torch, seed, style):
             o['specs'][which]['open'] = c2
             o['specs'][which]['orig'] = ref
             if not close(c2, Fraction(ref)):
-                o['fails'].append(('open-masks-cost-differs-from-original:' + which, {'open': c2, 'original': ref}))
+                o['fails'].append(('open-masks-cost-differs-from-original:' + which, {'open': c2, 'original': ref, 'order': o['order'], 'excluded': o.get('excluded')}))
         # ---- float64 evaluation for the comparison with the model (value + gradient), Coq literals
-        stage = 'float64'
+        # ---- the value of a metric does not depend on which metrics were read before it
+        stage = 'order'
         setall(vals0)
+        for order in (list(reversed(names)), names[1:] + names[:1]):
+            for which in order:
+                c2 = float(p.get_cost(which))
+                if c2 != o['specs'][which]['value']:
+                    o['fails'].append(('cost-depends-on-evaluation-order:' + which, {'first_read': o['specs'][which]['value'], 'read_in_order': order, 'value': c2, 'excluded': o.get('excluded')}))
+        stage = 'float64'
         p.double()
         for which in names:
             shared = specs[which].shared
-            maskers, layers = extract(p, which, shared)
+            maskers, layers = extract(p, which, shared, full)
             lit = coq_net(maskers, layers, which, lambda t: [float(v) for v in t.detach().flatten()])   # alpha/beta/gamma attribute: Parameter or (frozen) buffer
             c = p.get_cost(which)
             plist = pid_params(maskers, layers)
